@@ -980,7 +980,8 @@ def r_alignas_reaches_object(P, rep):
     from ..report import Report, reissue
     from . import c08
     rep.rule('R04.18', 'declared alignment reaches the object: at every declaration site (local, static local, global, member, anonymous member) an _Alignas specifier ends up in the align field the '
-                       'layout code places the object by, and without a specifier the type\'s alignment does (shared with C08 R08.4)', floor=8)
+                       'layout code places the object by, and without a specifier the type\'s alignment does; the value declspec() records for the specifiers of one declaration - '
+                       '_Alignas(type-name) or _Alignas(constant), one or several, in either order - is the strictest of them (C11 6.7.5p6) (shared with C08 R08.4)', floor=8)
     sub = Report('C08')
     try:
         if hasattr(c08, 'r084'):
@@ -994,6 +995,85 @@ def r_alignas_reaches_object(P, rep):
     n = reissue(rep, 'R04.18', sub, 'the object is placed by an alignment other than the declared one: ', keep=lambda o: o['key'].startswith('R08.4:') and ':alignas' in o['key'])
     if n == 0:
         rep.undecided('R04.18', 'parse.c:declaration:alignas', 'C08 R08.4 produced no alignas obligation')
+    # the value that travels: what declspec() leaves in VarAttr.align for every form and combination of alignment specifiers (C08 R08.4 compares the
+    # path summaries of declspec() with max() of the specifiers' alignments on a grid)
+    spec = Report('C08')
+    spec.rule('R08.4', '', 1)
+    f = getattr(c08, 'r084_alignas_specifier', None)
+    skey = 'parse.c:declspec:alignas-specifier'
+    if f is None:
+        rep.undecided('R04.18', skey, 'C08 R08.4 (alignment specifiers of declspec) is not available under its name any more'); return
+    try:
+        f(P, P.unit('parse.c'), spec)
+    except Exception as e:
+        rep.undecided('R04.18', skey, 'C08 R08.4 (alignment specifiers of declspec) could not be run: %s' % e); return
+    n = reissue(rep, 'R04.18', spec, 'simultaneously live objects (and the members of a struct) are placed by a weaker alignment than the declaration asks for: ',
+                keep=lambda o: ':declspec:' in o['key'])
+    if n < 5:
+        rep.undecided('R04.18', skey, 'C08 R08.4 produced %d obligations about the alignment declspec() records (one per specifier form and combination expected)' % n)
+
+
+def r_one_object_one_extent(P, cg, rep):
+    """R04.25: several file-scope declarations of one array denote ONE object; the storage emit_data reserves for it is that of the surviving Obj,
+    while every lvalue a[i] in the unit is typed by the scope entry of the latest declaration. Both agree only if the survivor of scan_globals
+    carries the composite type (C11 6.2.7p3), or one element when the type is still incomplete at the end of the unit (6.9.2p5). Decided by C15 R15.5
+    (scan_globals evaluated on concrete declaration lists with complete / incomplete array types); re-issued."""
+    from ..report import Report, reissue
+    from . import c15
+    rep.rule('R04.25', 'one object, one extent: of several tentative definitions of a file-scope array exactly the one that reaches emit_data has the composite type - `int a[]; int a[5];` and '
+                       '`int a[5]; int a[];` in any mix reserve 5 elements, an array still incomplete at the end of the unit one element - so that the bytes a[i] designates are bytes of the '
+                       'emitted object (shared with C15 R15.5 array-type/*)', floor=2)
+    key = 'parse.c:scan_globals:array-type'
+    f = getattr(c15, 'r155_merge', None)
+    if f is None or not hasattr(c15, 'ParseEnv'):
+        rep.undecided('R04.25', key, 'C15 R15.5 (merging of tentative definitions) is not available under its name any more'); return
+    sub = Report('C15')
+    sub.rule('R15.5', '', 1)
+    try:
+        f(c15.ParseEnv(P, cg), sub)
+    except Exception as e:
+        rep.undecided('R04.25', key, 'C15 R15.5 could not be run: %s' % e); return
+    n = reissue(rep, 'R04.25', sub, 'the object is emitted with fewer bytes than its lvalues designate (the elements beyond lie in the neighbouring objects): ',
+                keep=lambda o: ':array-type/' in o['key'] or (o['verdict'] == 'undecided' and 'merge/evaluation' in o['key']))
+    if n == 0:
+        rep.undecided('R04.25', key, 'C15 R15.5 produced no obligation about the type of the surviving array definition')
+
+
+def r_type_objects_stay(P, rep, sub5):
+    """R04.26: sizeof(T), the bytes `*p = *q` copies, the member offsets and array strides are all read from the Type / Member objects; an object is
+    allocated (frame home, .data image, flexible-array tail) from the value these had at ITS declaration. They designate the object's bytes only
+    as long as no later code rewrites a Type/Member object that other declarations share (the tag's type, a typedef, a member list that copy_type
+    leaves shared with the original). Decided by C08 R08.6 (ownership analysis); the obligations are taken from the C05 run C04 already
+    makes (R05.18 re-issues all of them), or from C08 directly."""
+    from ..report import Report
+    rep.rule('R04.26', 'the type an object was declared with keeps its extent: a function stores into a Type/Member object (size, align, members, next, ty, offset, array_len, base, ...) only if that '
+                       'activation created it or it is the tag type being completed - a private, enlarged copy of a struct (flexible-array initialiser) duplicates every member it relinks or '
+                       'retypes; otherwise sizeof / struct assignment through the shared type cover other bytes than the objects already allocated with it (shared with C08 R08.6)', floor=30)
+    why = 'objects already declared with the type no longer have the bytes their lvalues designate (sizeof, `*dst = *src`, member offsets change under them): '
+    obs = []
+    if not isinstance(sub5, Exception):
+        for o in sub5.obs:
+            k = o['key']
+            i = k.find(':R08.6/')
+            if i > 0 and o['verdict'] != 'known-finding':
+                obs.append((k[i + 1:], o))
+    if not obs:
+        from . import c08
+        sub = Report('C08')
+        try:
+            c08.r086(P, P.unit('parse.c'), sub)
+        except Exception as e:
+            rep.undecided('R04.26', 'parse.c:scope:type-object-ownership', 'C08 R08.6 could not be run: %s' % e); return
+        obs = [(o['key'].replace(':', '/', 1), o) for o in sub.obs if o['key'].startswith('R08.6:') and o['verdict'] != 'known-finding']
+    for key, o in obs:
+        if o['verdict'] == 'undecided':
+            rep.undecided('R04.26', key, o['what'], where=o['where'])
+        else:
+            what = o['what']
+            j = what.find(': ')
+            rep.ob('R04.26', key, o['verdict'] == 'holds', why + (what[j + 2:] if what.startswith('a later object declared') and j > 0 else what), where=o['where'], facts=o['facts'])
+    if not obs:
+        rep.undecided('R04.26', 'parse.c:scope:type-object-ownership', 'C08 R08.6 produced no ownership obligation')
 
 
 def run(P, rep, tier):
@@ -1005,7 +1085,10 @@ def run(P, rep, tier):
                        'object a lowering attaches to a tree is never one taken from persistent parser state, so that two live sites never share bytes; it does not decide liveness itself. '
                        'R04.6 and R04.18 re-issue the clauses of C03 R03.10 (single evaluation of the op= lvalue) and C08 R08.4 (_Alignas reaches the object). '
                        'R04.19 (members inside the aggregate: C08 R08.3 layout steps of struct_decl and union_decl), R04.20 (home of static-storage objects: size and alignment emitted by emit_data, C15 R15.1) and '
-                       'R04.21 (initialising stores designate their sub-object relative to the enclosing one, C05 R05.1-R05.5/R05.7) re-issue the clauses of those properties that state where an object or sub-object lives.')
+                       'R04.21 (initialising stores designate their sub-object relative to the enclosing one, C05 R05.1-R05.5/R05.7) re-issue the clauses of those properties that state where an object or sub-object lives. '
+                       'R04.25 (merged tentative array definitions reserve the composite type, C15 R15.5) and R04.26 (no store into a shared Type/Member object, C08 R08.6) re-issue the clauses that keep the '
+                       'extent of an object and the extent its lvalues are typed with the same; R04.27 evaluates struct_members() on concrete bit-field widths (the range the accessor and layout rules assume '
+                       'is enforced by a diagnostic); R04.28 evaluates declaration() on two declarators that share one variably modified type object.')
     rep.assumptions += ['gen_addr of a child leaves its address in %rax (contract, proved per kind by R04.4)', 'host arithmetic on layout fields is tracked as 64-bit unless the C type of the expression is narrower']
     r_load_store(cg, rep)
     r_aggregate_value(cg, rep)
@@ -1059,3 +1142,15 @@ def run(P, rep, tier):
     rep.rule('R04.24', 'an array declared with an integer constant expression as bound gets a fixed-size array type of bound * sizeof(element) bytes: the predicate array_dimensions() asks accepts the constant '
                        'expressions the compiler\'s own <stddef.h> produces for offsetof, array elements and nested designators included (shared with C08 R08.5)', floor=3)
     r_constant_bound(P, rep, 'R04.24')
+    r_one_object_one_extent(P, cg, rep)
+    r_type_objects_stay(P, rep, sub5)
+    from ..lib_c04_decl import r_bitfield_width
+    rep.rule('R04.27', 'a bit-field reaches the layout and the accessors only with a width they are sound for: struct_members() diagnoses a width that is negative, that exceeds the bits of the declared '
+                       'type, or that is zero for a named member (C11 6.7.2.1p4), and accepts every other width - R04.1/R04.2 (shift counts 64-w-o, masks (1<<w)-1, one unit of the declared type) and '
+                       'the layout step (R04.11 unit-fit, R04.19) are decided for 1 <= w <= 8*sizeof(type) only', floor=4)
+    r_bitfield_width(P, rep, 'R04.27')
+    from ..lib_c04 import r_vla_size_stays
+    rep.rule('R04.28', 'the hidden size variable a VLA object was allocated by stays the one its type carries: when the declaration specifiers denote one variably modified Type object for several '
+                       'declarators (typedef name, typeof), no later declarator rebinds Type.vla_size of the type - at any dimension - that an earlier object of the declaration already uses '
+                       '(sizeof x and the strides of x[i] / p + n read it, R04.13; the block was allocated from it, R04.15)', floor=3)
+    r_vla_size_stays(P, rep, 'R04.28')
